@@ -92,8 +92,16 @@ def documents(n_walks, seed, ck, corpus_n=0, max_steps=30, tag="optdocs", specia
         # every slot whose value is written verbatim or in a special lexical form (expression, "text"i, {list}, /regex/,
         # [binding], hex colour): the option set must not reach into it
         conc = concretise.Concretiser(seed, avoid_quote="\"'")
-        for i, h in enumerate(docs.slots(ck=ck, tag=tag + "_slots")):
+        for i, h in enumerate(docs.slots(ck=ck, tag=tag + "_slots", with_complex=True)):
             info = h[-1]["info"]
+            if info["pos"] == "aftercomplex":
+                # the keyword as first simple keyword behind a block-valued item: separate_complex_types moves it to the front
+                text, _ = concretise.assemble(conc.tokens(concretise.with_root(h, docs.root_type(h))))
+                try:
+                    out.append(("slotc:%s.%s:%s<%s" % (tuple(info["slot"][:3]) + (info["after"][2],)), text, loads(text)))
+                except Exception:  # noqa: BLE001
+                    pass
+                continue
             if info["pos"] != "middle" or info["slot"][2] not in ("expr", "istring", "listexpr", "regex", "bind", "hex", "bindpair", "hexpair", "mixedpair"):
                 continue
             text, _ = concretise.assemble(conc.tokens(concretise.with_root(h, docs.root_type(h))))
